@@ -45,6 +45,7 @@ class DecisionCtx:
 class State:
     def __init__(self, prefix=None):
         self.pc: list = []
+        self.assumed: set = set()  # indices of pc entries that are facts, not decisions
         self.objs: dict[int, ObjRec] = {}
         self.lists: dict[int, ListRec] = {}
         self.dicts: dict[int, DictRec] = {}
@@ -69,8 +70,10 @@ class State:
 
     # -- path condition
     def assume(self, c) -> None:
+        """Add a fact (axiom / model postcondition / precondition) -- as opposed to a branch decision."""
         if z3.is_true(c):
             return
+        self.assumed.add(len(self.pc))
         self.pc.append(c)
 
     def _sync_solver(self):
@@ -152,6 +155,7 @@ class State:
         n = State.__new__(State)
         memo[id(self)] = n
         n.pc = list(self.pc)
+        n.assumed = set(self.assumed)
         n.objs = copy.deepcopy(self.objs, memo)
         n.lists = copy.deepcopy(self.lists, memo)
         n.dicts = copy.deepcopy(self.dicts, memo)
